@@ -128,11 +128,23 @@ def table():
         with open(TABLE_FILE) as f:
             _table = json.load(f)
         _table["_one_line_set"] = set(_table.get("one_line_gaps", []))
+        gm = {}
+        for k, v in _table["gaps"].items():
+            m = set(v) - {"lost"}
+            if m:
+                gm.setdefault("|".join(k.split("|")[:3]), set()).update(m)
+        _table["_gap_modes"] = gm
     return _table
 
 
 def modes(key):
     return set(table()["gaps"].get(key, []))
+
+
+def gap_modes(key):
+    """failure modes other than "lost" recorded for the gap ctx|prev|next of the key, whatever the
+    form of the comment: the gaps in which the pinned formatter is known to mishandle comments"""
+    return table()["_gap_modes"].get("|".join(key.split("|")[:3]), set())
 
 
 def one_line(key):
